@@ -109,3 +109,41 @@ def k2(ctx):
                 "n_disagreements": len(dis), "disagreements": dis[:20], "growth_witness": growth.strip(),
                 "samples": [f"{r} => {g[:200]}" for r, g in list(zip(reqs, gos))[100:103]]}
     return ctx.stage("k2", run)
+
+
+def k1i(ctx):
+    """every interleaving of k iterators with m steps each (own stores) vs each iterator alone"""
+    def run():
+        h = stages.harness_stage(ctx)
+        if not h["ok"]:
+            return {"ok": False, "broken": "harness build failed", "detail": h["output"], "disagreements": []}
+        wd = ctx.workdir("k1i")
+        rc, out = sh([h["bin"], "k1i", "-out", wd, "-tier", ctx.tier, "-seed", str(ctx.seed)], env=GOENV, timeout=3600)
+        if rc != 0:
+            return {"ok": False, "broken": "implementation run crashed", "detail": out[-3000:], "crash": True, "disagreements": []}
+        r = json.load(open(os.path.join(wd, "k1i.json")))
+        dis = [{"request": " | ".join(d["terms"]) + " schedule=" + str(d["schedule"]), "impl": d["mixed"], "spec": d["alone"],
+                "impl_vs_spec": True, "size": len(str(d))} for d in (r["disagreements"] or [])]
+        return {"ok": not dis, "evaluations": r["interleaved_runs"], "histories": r["interleaved_runs"],
+                "distinct_nontrivial": r["tuples"], "n_disagreements": len(dis), "disagreements": dis,
+                "samples": r["samples"]}
+    return ctx.stage("k1i", run)
+
+
+def race(ctx):
+    """parallel consumption on goroutines under the race detector (supporting evidence for C14)"""
+    def run():
+        binp = os.path.join(ctx.bdir, "vrace")
+        env = dict(GOENV, CGO_ENABLED="1")
+        rc, out = sh(["go", "build", "-race", "-tags", "verif", "-o", binp, "./cmd/vrace"], cwd=HARNESS, env=env, timeout=1200)
+        if rc != 0:
+            return {"ok": False, "broken": "race harness build failed", "detail": out[-3000:], "disagreements": []}
+        rc, out = sh([binp], env=env, timeout=1200)
+        dis = []
+        if rc != 0 or "DATA RACE" in out:
+            dis.append({"request": "vrace: 50 iterator jobs (string/int/slice/map iterators, 24 combinator terms) on parallel goroutines, 40 rounds",
+                        "impl": out[-2500:], "spec": "no data race, every goroutine sees the sequence it sees alone",
+                        "impl_vs_spec": True, "size": 1})
+        return {"ok": not dis, "evaluations": 50 * 40 * 5, "histories": 50 * 40 * 5, "distinct_nontrivial": 50,
+                "n_disagreements": len(dis), "disagreements": dis, "samples": [out.strip()[-200:]]}
+    return ctx.stage("race", run)
